@@ -14,8 +14,8 @@ SQLite path (real engine, real file, default rollback journal):
   * crash plans: (a) observer form, every execution: the committed rows an independent connection
     sees before every driver call are what abandoning the connection at that call leaves; (b) the
     real thing: forked child os._exit()s at call k (and right after the real commit k), the parent
-    reopens the file (hot-journal replay) - a subset of programs in quick, all depth<=2 programs in
-    thorough.
+    reopens the file (hot-journal replay) - two programs in quick; all single-operation programs, all
+    pairs of core operations and half of those with a commit in the middle in thorough.
   Oracle: the committed rows equal S_a (a = commit points acknowledged so far) or, only if a driver
   commit has been issued since, S_{a+1}; anything else is a partial / lost / premature commit. With an
   injected error the exception must leave the session (or the commit() call the program guards).
@@ -99,8 +99,10 @@ def make_program(tokens, kind):
                     except Exception as e: px.caught(e); mark(w, 'caught')
                     else: px.ack(); mark(w, 'ack')
                 elif t in GUARDED:
+                    n0 = px.mon.n
                     try: OPS[t[1:]](w)
                     except Exception as e: px.caught(e); mark(w, 'caught-op')
+                    px.note(('guarded-range', n0, px.mon.n))
                 else: OPS[t](w)
             px.start(); mark(w, 'start')
         px.ack(); mark(w, 'ack')
@@ -151,8 +153,8 @@ def programs(tier, path):
         add(['xri', 'ru']); add(['u1', 'xri', 'g']); add(['l', 'xru', 'c'])
     else:
         for a in WRITE_OPS: add([a], 'fork', 'pairs')
-        for a, b in allp: add([a, b], 'fork', *(('pairs',) if (a, b) in prs[::2] else ()))
-        for a, b in allp: add([a, 'commit', b], *(('fork',) if (a, b) in prs else ()))
+        for a, b in allp: add([a, b], *((('fork',) if (a, b) in prs else ()) + (('pairs',) if (a, b) in prs[::2] else ())))
+        for a, b in allp: add([a, 'commit', b], *(('fork',) if (a, b) in prs[::2] else ()))
         for a, b in prs: add([a, 'dbcommit', b])
         for a, b, c in trs: add([a, b, c])
         for a, b, c in trs[::2]:
@@ -405,7 +407,18 @@ def account(sub, path, pack, tokens, kind, pc, plan, x, outcomes, stats):
         if not (fclass == ['reconnectable'] and txs == 'open-write-tx' and x.exc is None): sig += '|' + comp
         report(sub, path, tokens, kind, plan, comp, site, pc, x, k, None, sig=sig, extra=dict(server_log=log[:60], all=[c for c, _ in bad]))
     else:
-        report(sub, path, tokens, kind, plan, comp, site, pc, x, k, None)
+        sig = None
+        if pc == 'guarded-op' and any(e[0] == 'caught' for e in x.events) and x.fired:
+            # which part of the guarded db.execute() failed: its own statement (BEGIN / cursor / execute) or the
+            # automatic flush of the session's pending changes that precedes it
+            rng = [n for n in pack['ref'].notes if isinstance(n, tuple) and n[0] == 'guarded-range'][0]
+            calls = pack['ref'].calls
+            own = {rng[2] - 2, rng[2] - 1}
+            if rng[1] + 1 < len(calls) and (calls[rng[1] + 1][1] or '').startswith('BEGIN'): own |= {rng[1], rng[1] + 1}
+            key = x.fired[0][0]
+            if (key[1] if isinstance(key, tuple) else key) not in own:
+                sig = 'sqlite|guarded-op|error-in-the-automatic-flush-caught|session-goes-on|%s' % comp.split(':')[-1]
+        report(sub, path, tokens, kind, plan, comp, site, pc, x, k, None, sig=sig)
 
 def sub_world(path): return world_for(path)
 
@@ -482,7 +495,7 @@ def run(ctx):
     ctx.cov['bounds'] = ('programs of <= 3 write operations (+ optional commit / guarded commit) x 3 session kinds; every single '
                          'driver-call index x 3 (SQLite) / 5 (PG model) fault classes + lost commit acknowledgement; '
                          + ('real fork crashes for a subset of programs' if ctx.quick else
-                            'fault pairs for flagged programs; real fork crashes for all programs of depth <= 2'))
+                            'fault pairs for flagged programs; real fork crashes at every call index of all single-operation programs, all pairs of core operations and half of the core pairs with a commit in the middle'))
     ctx.assume('SQLite: real engine on a /dev/shm file with the default rollback journal; power loss / fsync behaviour is not modelled (process death only)')
     ctx.assume('PostgreSQL: MODEL-BASED - fake psycopg2 connection (autocommit, commit, rollback, close; implicit BEGIN at the first statement) '
                'with SQLite as relational substrate; server-side behaviour is out of reach')
